@@ -10,17 +10,31 @@ import (
 
 // ---- abstract syntax ----
 
+// value forms of attributes and annotations
+const (
+	fDefault  = 0 // string (Items empty) or flat array (Items non-empty)
+	fNested   = 1 // array of arrays: Nested
+	fEmptyArr = 2 // []
+	fEmptyStr = 3 // ""
+	fMulti    = 4 // multi-line doc string (annotations only): Lines
+)
+
 type Attr struct {
-	Kind  int      // 0 nvp with string value, 1 modifier (~x), 2 nvp with array value
-	Name  string   // nvp name or modifier text
-	Val   string   // string value (may hold non-ASCII)
-	Items []string // array items
+	Kind   int      // 0 nvp with string value, 1 modifier (~x), 2 nvp with array value
+	Name   string   // nvp name or modifier text
+	Val    string   // string value (may hold non-ASCII)
+	Items  []string // array items
+	Form   int
+	Nested [][]string
 }
 
 type Anno struct {
-	Name  string
-	Val   string
-	Items []string // non-empty: array value
+	Name   string
+	Val    string
+	Items  []string // non-empty: array value
+	Form   int
+	Nested [][]string
+	Lines  []string
 }
 
 type Field struct {
@@ -153,10 +167,17 @@ func (g *gen) attrs(max int) []Attr {
 		case 2, 3:
 			out = append(out, Attr{Kind: 1, Name: g.id("m")})
 		default:
-			k := 1 + g.r.Intn(3)
 			a := Attr{Kind: 2, Name: g.id("a")}
-			for j := 0; j < k; j++ {
-				a.Items = append(a.Items, g.str())
+			switch g.r.Intn(6) {
+			case 0:
+				a.Form, a.Nested = fNested, g.nested()
+			case 1:
+				a.Form = fEmptyArr
+			default:
+				k := 1 + g.r.Intn(3)
+				for j := 0; j < k; j++ {
+					a.Items = append(a.Items, g.str())
+				}
 			}
 			out = append(out, a)
 		}
@@ -164,31 +185,77 @@ func (g *gen) attrs(max int) []Attr {
 	return out
 }
 
+func (g *gen) nested() [][]string {
+	n := 1 + g.r.Intn(3)
+	out := make([][]string, n)
+	for i := range out {
+		k := 1 + g.r.Intn(2)
+		for j := 0; j < k; j++ {
+			out[i] = append(out[i], g.str())
+		}
+	}
+	return out
+}
+
+// annoForm gives every annotation name one value form (by its number), so that re-declarations keep the form:
+// string, flat array, nested arrays, array that may be empty, multi-line doc string, string that may be empty
+func (g *gen) annoValue(name string, again bool) Anno {
+	var num int
+	fmt.Sscanf(name, "n%d", &num)
+	a := Anno{Name: name}
+	switch num % 8 {
+	case 0, 1, 2:
+		a.Val = g.str()
+	case 3:
+		k := 1 + g.r.Intn(3)
+		for j := 0; j < k; j++ {
+			a.Items = append(a.Items, g.str())
+		}
+	case 4:
+		a.Form, a.Nested = fNested, g.nested()
+	case 5:
+		// an empty value overrides nothing and is overridden by a later one: in the merging streams it is only used
+		// where it is not followed by another declaration of the name, i.e. never as the first of several
+		if (again || g.hostile) && g.r.Bool() {
+			a.Form = fEmptyArr
+		} else {
+			a.Items = []string{g.str()}
+		}
+	case 6:
+		a.Form, a.Lines = fMulti, []string{"line one " + g.str(), "line two"}[:1+g.r.Intn(2)]
+	default:
+		if (again || g.hostile) && g.r.Bool() {
+			a.Form = fEmptyStr
+		} else {
+			a.Val = g.str()
+		}
+	}
+	return a
+}
+
 // annos draws annotation names from a small per-owner pool so that an annotation is re-declared now and then
 func (g *gen) annos(pool *[]string, max int) []Anno {
-	if !g.r.Chance(1, 3) {
+	if !g.r.Chance(2, 5) {
 		return nil
 	}
 	n := 1 + g.r.Intn(max)
 	var out []Anno
 	for i := 0; i < n; i++ {
 		var name string
-		if len(*pool) > 0 && g.r.Chance(1, 3) {
+		again := false
+		if len(*pool) > 0 && g.r.Chance(1, 2) {
 			name = (*pool)[g.r.Intn(len(*pool))]
+			again = true
+			var num int
+			fmt.Sscanf(name, "n%d", &num)
+			if num%8 == 6 && !g.hostile {
+				continue // a multi-line annotation declared again records two locations (known finding): replacing stream only
+			}
 		} else {
 			name = g.id("n")
 			*pool = append(*pool, name)
 		}
-		a := Anno{Name: name}
-		if g.r.Chance(1, 4) {
-			k := 1 + g.r.Intn(3)
-			for j := 0; j < k; j++ {
-				a.Items = append(a.Items, g.str())
-			}
-		} else {
-			a.Val = g.str()
-		}
-		out = append(out, a)
+		out = append(out, g.annoValue(name, again))
 	}
 	return out
 }
@@ -365,7 +432,7 @@ func (g *gen) rest(p *appPlan, apps []string, depth int, prefix string) Rest {
 	}
 	var pool []string
 	for _, a := range g.annos(&pool, 1) {
-		if len(a.Items) == 0 {
+		if len(a.Items) == 0 && a.Form == fDefault {
 			r.Annos = append(r.Annos, a)
 		}
 	}
@@ -431,6 +498,24 @@ func (g *gen) spec(nApps, maxBlocks, nFiles, maxItems int) Spec {
 		}
 		s.Files[parent].Imports = append(s.Files[parent].Imports, fmt.Sprintf("f%d", i))
 		s.Files[parent].ImpIdx = append(s.Files[parent].ImpIdx, i)
+	}
+	// cross edges, diamonds with extra edges, back edges: the compile order is the depth-first preorder in textual
+	// order, which differs from a breadth-first or "seen when pushed" order only with such edges
+	for k := g.r.Intn(nFiles); nFiles > 2 && k > 0; k-- {
+		a, b := g.r.Intn(nFiles), g.r.Intn(nFiles)
+		if a == b {
+			continue
+		}
+		dup := false
+		for _, x := range s.Files[a].ImpIdx {
+			if x == b {
+				dup = true
+			}
+		}
+		if !dup {
+			s.Files[a].Imports = append(s.Files[a].Imports, fmt.Sprintf("f%d", b))
+			s.Files[a].ImpIdx = append(s.Files[a].ImpIdx, b)
+		}
 	}
 	if nFiles > 2 && g.r.Chance(1, 3) { // an extra edge (diamond / back edge)
 		a, b := g.r.Intn(nFiles), g.r.Intn(nFiles)
@@ -500,4 +585,21 @@ func (g *gen) spec(nApps, maxBlocks, nFiles, maxItems int) Spec {
 		}
 	}
 	return s
+}
+
+// everywhere re-opens one app in EVERY file of the specification with the same type, field, endpoint and
+// annotation, so that their n locations spell out the order in which the files were compiled
+func (g *gen) everywhere(s *Spec) {
+	app := s.Files[0].Blocks[0].App
+	for i := range s.Files {
+		blk := Block{App: app, Items: []interface{}{
+			Anno{Name: "n800", Val: g.str()},
+			TypeD{Name: "TX", Fields: []Field{{Name: "fx", Type: "int"}}, Annos: []Anno{{Name: "n804", Form: fNested, Nested: g.nested()}}},
+			EpD{Name: "EX", Stmts: []Stmt{{Kind: sText, Text: words[g.r.Intn(len(words))]}}},
+		}}
+		at := g.r.Intn(len(s.Files[i].Blocks) + 1)
+		bs := append([]Block{}, s.Files[i].Blocks[:at]...)
+		bs = append(bs, blk)
+		s.Files[i].Blocks = append(bs, s.Files[i].Blocks[at:]...)
+	}
 }
